@@ -52,7 +52,21 @@ impl util::SymbolManager<asm::Symbol>
                     {
                         if let Some(addr_start) = bankdef.addr_start.maybe_into::<usize>()
                         {
-                            let prg_offset = addr - addr_start + output_offset / 8 - 0x10;
+                            // Offset into PRG ROM, which starts after the 16-byte file header;
+                            // labels outside of it have no PRG offset and are skipped
+                            let maybe_prg_offset = addr
+                                .checked_sub(addr_start)
+                                .and_then(|o| o.checked_add(output_offset / 8))
+                                .and_then(|o| o.checked_sub(0x10));
+                            
+                            let prg_offset = {
+                                match maybe_prg_offset
+                                {
+                                    Some(o) => o,
+                                    None => return,
+                                }
+                            };
+
                             result.push_str("P:");
                             result.push_str(&format!("{:x}", prg_offset));
                             result.push_str(":");
